@@ -8,7 +8,7 @@ PROP = "C19"
 THEOREMS = ["C19_model_smoke", "C19_invariant_every_interleaving", "C19_no_underflow", "C19_conservation", "C19_exclusive", "C19_mut_unshared",
             "C19_frozen_bytes_constant", "C19_write_needs_mut", "C19_all_returned", "C19_blocks_only_if_empty", "C19_release_batch",
             "C19_bucket_choice", "C19_waits_although_buffer_available_refuted", "C19_source_statement_order",
-            "C19_all_connections_ended_all_message_buffers_back", "C19_ending_connection_returns_what_it_held"]
+            "C19_all_connections_ended_all_message_buffers_back", "C19_ending_connection_returns_what_it_held", "C19_source_batch_released_after_the_write"]
 PRELUDE = "From NW Require Import Base.Bytes Model.PoolTok Conf.CodecConf Conf.PoolConf.\n"
 
 
@@ -206,6 +206,20 @@ def run(tier, replay=None):
                 for cc, co in zip(cont, cobs):
                     if co.get("panics") or co.get("hung") or co.get("available") != cc["count"] or co.get("in_use") != 0:
                         violations.append((f"contended hand-over of {cc['count']} buffer(s) between {cc['tasks']} tasks: {co.get('panics')} acquirers panicked, hung={co.get('hung')}, afterwards available={co.get('available')} in_use={co.get('in_use')}", cc, None))
+        # the pool as the connection engine uses it: a reader that stalls with a write pending while other connections cycle
+        # the whole message pool, then reads on — the bytes of its pending frames must not have changed under it
+        if not replay:
+            import serverlib as sl
+            import srvmon
+            sr = sl.stalled_resume_histories(r, thorough)
+            sobs, sout = sl.run_histories(sr, "debug", tag="c19sr", timeout=900)
+            if sobs is None:
+                violations.append(("stalled-reader histories crashed or hung: " + sout[-300:], sr[0], None))
+            else:
+                stats["stalled_reader_histories"] = len(sr)
+                for c2, ob2 in zip(sr, sobs):
+                    for (tg, what, t2) in srvmon.stalled_resume_check(c2, ob2):
+                        violations.append(("a buffer changed (or went to another holder) while a pending write still held it: " + what, c2, t2))
         terms = []
         for prof in ("debug", "release"):
             obs, hout = run_harness("pool", cases, prof, tag=tag, timeout=600)
